@@ -47,7 +47,10 @@ CLAIMED['C04'] = dict(
          'program); C04.K2 Fiber::stack_unwind from an arbitrary fiber picks the innermost handler, honours the native boundary, '
          'restores frame, stack top = frame start + slot depth and ip = chunk start + offset; C04.K3 op_check_handler / op_raise / '
          'op_pop_handler / op_continue_unwind / op_get_error / op_push_handler behave as the source rules prescribe for every '
-         'operand. The try/catch lowering (exactly-n handlers popped on every exit) is not yet machine checked.',
+         'operand; C04.C1 the real lowering functions break_ / continue_ / return_ / emit_return / try_ / loop_scope / child are '
+         'executed with opaque sub-constructs and a ghost list of open try blocks (<= 3): every exit pops exactly the handlers of '
+         'the try blocks it leaves, nested code sees the right try/loop attributes, nested functions start with none, and every '
+         'path through the emitted try skeleton registers and deactivates its handler exactly once.',
     note='Trusted: rustc MIR printer, mirsym, abstract object identities (vmabs.py), uninterpreted is_subclass/class_of, Z3. '
          'Known design-level findings F5/F6 live in the lowering, outside these kernels.',
     ref='§4 C04')
